@@ -316,7 +316,7 @@ def parse_lockfile(
             # out of the list. As a result, skip packages that aren't in
             # the list of packages. This means issues will be deferred
             # later on in the analysis phase.
-            if via in packages:
+            if via in packages and pkg not in packages[via]["deps"]:
                 packages[via]["deps"].append(pkg)
 
     for pkg in packages:
